@@ -46,6 +46,13 @@ def run(ctx):
     ctx.rule("R8", "a converged result is the fixed point for *any* initial density: nothing computed once from the start density (its trace, its diagonal) enters the iteration "
                    "except the iterate and loop-carried state (shared with C04-R7)")
     check_no_start_memory(ctx, "R8")
+    ctx.rule("R9", "density builders by value: every diagonalisation arm of make_Pnew_factory returns, per molecule and spin channel, 2 x the projector on the lowest nocc "
+                   "eigenvectors of the molecule's own Fock block -- symmetric, trace 2 nocc, idempotent, commuting with F, nothing on padding orbitals (shared with C04-R8) [EA+]")
+    from ..densitymodel import check_density_builders
+    try:
+        check_density_builders(ctx, "R9")
+    except AnalysisError as e_:
+        ctx.note(f"density builders not interpretable ({str(e_)[:120]}); R6 (shape-based) decides alone")
     check_rep_rows(ctx, "R6")
     check_masked_occupations(ctx, "R6")
     check_arm_agreement(ctx, scf, "R5")
